@@ -135,10 +135,10 @@ func init() {
 	strAssume := []string{"String domain: []byte/string are SMT-LIB strings (one code point per byte); base64 is an uninterpreted codec with dec(enc(x))=x, enc(x) free of CR/LF, enc(x)=\"\" iff x=\"\"", "bufio.Reader.ReadLine contract (4096-byte buffer; bodies bounded to 4000 bytes so the isPrefix case is outside the claim)", "strings.Split / proof line loops bounded by k"}
 	reg(&checkSpec{ID: "C11", Assumptions: strAssume, Runs: []runSpec{
 		{Harness: pkgBastion + ".VerifParseBodyHashLengths", Domain: sym.DomString, Solver: sym.CVC5, Quick: p("maxhash", 64), Thorough: p("maxhash", 64), Covers: []string{"parse/lengths-roundtrip"}},
-		{Harness: pkgBastion + ".VerifParseBodyRoundTrip", Domain: sym.DomString, Solver: sym.CVC5, Quick: p("k", 8), Thorough: p("k", 64), Unwind: 200, Covers: []string{"parse/roundtrip-with-proof"}},
+		{Harness: pkgBastion + ".VerifParseBodyRoundTrip", Domain: sym.DomString, Solver: sym.CVC5, Quick: p("k", 8), Thorough: p("k", 32), Unwind: 200, Covers: []string{"parse/roundtrip-with-proof"}},
 		{Harness: pkgBastion + ".VerifParseBodyRefusal", Domain: sym.DomString, Solver: sym.CVC5, Quick: p("k", 2), Thorough: p("k", 3), Unwind: 4, CutOnUnwind: true, TimeoutMs: 30000, Covers: []string{"parse/accepts-one-proof-line", "parse/refuses"}},
-		{Harness: pkgWitness + ".VerifProofRoundTrip", Domain: sym.DomString, Solver: sym.CVC5, Quick: p("k", 8, "maxsplit", 10), Thorough: p("k", 64, "maxsplit", 66), Unwind: 200, Covers: []string{"proof/roundtrip-two"}},
-		{Harness: pkgFeedbastion + ".VerifWriterRoundTrip", Domain: sym.DomString, Solver: sym.CVC5, Quick: p("k", 8), Thorough: p("k", 64), Unwind: 200, Covers: []string{"writer/roundtrip-two"}},
+		{Harness: pkgWitness + ".VerifProofRoundTrip", Domain: sym.DomString, Solver: sym.CVC5, Quick: p("k", 8, "maxsplit", 10), Thorough: p("k", 32, "maxsplit", 34), Unwind: 200, Covers: []string{"proof/roundtrip-two"}},
+		{Harness: pkgFeedbastion + ".VerifWriterRoundTrip", Domain: sym.DomString, Solver: sym.CVC5, Quick: p("k", 8), Thorough: p("k", 32), Unwind: 200, Covers: []string{"writer/roundtrip-two"}},
 	}})
 	reg(&checkSpec{ID: "C18", Assumptions: append([]string{"decimal formatting (%d, %03d) is an uninterpreted function of the 64-bit value shared by both implementations", "tile byte decoding inside tlog.TileHashReader is outside the claim"}, commonAssumptions...), Runs: []runSpec{
 		{Harness: pkgSumdb + ".VerifTilePath", Domain: sym.DomString, Solver: sym.Z3, Quick: p(), Thorough: p(), Covers: []string{"tile/full-deep", "tile/partial-shallow", "tile/seven-levels"}},
